@@ -55,7 +55,7 @@ type Scenario struct {
 	Stoppers   int      `json:"stoppers"`
 	IntervalUs int      `json:"intervalUs"`      // export interval in microseconds; 0 = one hour (ticker never fires)
 	ExportTOms int      `json:"exportTimeoutMs"` // export timeout
-	ExpMode    string   `json:"expMode"`         // "ok" | "mixed" (sleep / error / wait-for-deadline at random) | "hold" (first Export blocks until every Emit returned)
+	ExpMode    string   `json:"expMode"`         // "ok" | "mixed" (sleep / error / wait-for-deadline at random) | "slow" (every Export sleeps) | "hold" (first Export blocks until every Emit returned)
 	XRes       []string `json:"xres,omitempty"`  // scripted result of the n-th Export call: "ok" | "err"
 	Phased     bool     `json:"phased"`          // flushers and stoppers start only after every Emit returned
 	NAttrs     int      `json:"nattrs"`          // attributes per record besides the two identity attributes
@@ -63,6 +63,16 @@ type Scenario struct {
 	Script     []string `json:"script,omitempty"`
 	Name       string   `json:"name,omitempty"`
 	Seed       int64    `json:"seed"`
+	// Cancels: ForceFlush / Shutdown calls whose context ends. Scripted scenarios get them from their script: a key
+	// "<proc>@cancel" is the moment the harness cancels <proc>'s context (possibly before the call is made).
+	Cancels []CancelSpec `json:"cancels,omitempty"`
+}
+
+// CancelSpec: how the context of one ForceFlush / Shutdown call ends.
+type CancelSpec struct {
+	Proc    string `json:"proc"`    // "f1" | "f1.2" | "s1" ...
+	Mode    string `json:"mode"`    // "script" (gate "<proc>@cancel") | "pre" (before the call) | "during" | "deadline"
+	DelayUs int    `json:"delayUs"` // during: after the call began; deadline: timeout counted from the call
 }
 
 // ---------------------------------------------------------------- record content
@@ -254,6 +264,11 @@ func (e *recExporter) Export(ctx context.Context, recs []sdklog.Record) error {
 		case <-time.After(2 * time.Second): // safety net only; the harness releases when every Emit returned
 			e.res.Count("hold_safety_timeouts", 1)
 		}
+	case e.mode == "slow":
+		e.mu.Lock()
+		d := time.Duration(200+e.rng.Intn(1300)) * time.Microsecond
+		e.mu.Unlock()
+		time.Sleep(d)
 	case e.mode == "mixed":
 		e.mu.Lock()
 		k := e.rng.Intn(8)
@@ -532,6 +547,84 @@ func runScenario(scn int, sc Scenario, pts bool, tw *vh.TraceWriter, res *vh.Res
 			f()
 		}()
 	}
+	// caller contexts. A Cancel line is written BEFORE the context is cancelled (or created with a deadline): whoever
+	// observes the context done logs later, so "cancelled before" in the trace is sound.
+	cancels := map[string]CancelSpec{}
+	for _, c := range sc.Cancels {
+		cancels[c.Proc] = c
+	}
+	for _, k := range sc.Script {
+		if strings.HasSuffix(k, "@cancel") {
+			p := strings.TrimSuffix(k, "@cancel")
+			cancels[p] = CancelSpec{Proc: p, Mode: "script"}
+		}
+	}
+	var cleanupMu sync.Mutex
+	var cleanup []context.CancelFunc
+	defer func() {
+		cleanupMu.Lock()
+		for _, c := range cleanup {
+			c()
+		}
+		cleanupMu.Unlock()
+	}()
+	logCancel := func(proc string) { tw.Emit(map[string]any{"ev": "Cancel", "sc": scn, "proc": proc}) }
+	scriptCtx := map[string]context.Context{}
+	for p, c := range cancels {
+		if c.Mode != "script" {
+			continue
+		}
+		p := p
+		ctx, cancel := context.WithCancel(context.WithValue(context.Background(), procKey{}, procInfo{p, scn}))
+		scriptCtx[p] = ctx
+		cleanup = append(cleanup, cancel)
+		start("cancel-"+p, func() {
+			gate(p + "@cancel")
+			logCancel(p)
+			cancel()
+			res.Count("ctx_cancelled_scripted", 1)
+		})
+	}
+	// callCtx returns the context of proc's call and a function to run right after the Call line was written
+	callCtx := func(proc string) (context.Context, func()) {
+		base := context.WithValue(context.Background(), procKey{}, procInfo{proc, scn})
+		c, ok := cancels[proc]
+		if !ok {
+			return base, func() {}
+		}
+		keep := func(cancel context.CancelFunc) {
+			cleanupMu.Lock()
+			cleanup = append(cleanup, cancel)
+			cleanupMu.Unlock()
+		}
+		switch c.Mode {
+		case "script":
+			return scriptCtx[proc], func() {}
+		case "pre":
+			ctx, cancel := context.WithCancel(base)
+			logCancel(proc)
+			cancel()
+			res.Count("ctx_cancelled_before_call", 1)
+			return ctx, func() {}
+		case "deadline":
+			logCancel(proc)
+			ctx, cancel := context.WithTimeout(base, time.Duration(c.DelayUs)*time.Microsecond)
+			keep(cancel)
+			res.Count("ctx_with_deadline", 1)
+			return ctx, func() {}
+		default: // "during"
+			ctx, cancel := context.WithCancel(base)
+			keep(cancel)
+			return ctx, func() {
+				go func() {
+					time.Sleep(time.Duration(c.DelayUs) * time.Microsecond)
+					logCancel(proc)
+					cancel()
+				}()
+				res.Count("ctx_cancelled_during_call", 1)
+			}
+		}
+	}
 	jitter := func(r *rand.Rand, maxUs int) {
 		if sc.Script == nil && maxUs > 0 {
 			if d := r.Intn(maxUs); d > 0 {
@@ -582,25 +675,33 @@ func runScenario(scn int, sc Scenario, pts bool, tw *vh.TraceWriter, res *vh.Res
 				if sc.FlushesPer > 1 {
 					proc = fmt.Sprintf("%s.%d", name, j+1)
 				}
-				ctx := context.WithValue(context.Background(), procKey{}, procInfo{proc, scn})
 				jitter(r, 1200)
+				ctx, after := callCtx(proc)
 				gate(proc + "@call")
 				tw.Emit(map[string]any{"ev": "Call", "sc": scn, "op": "FF", "proc": proc})
+				after()
 				err := bp.ForceFlush(ctx)
 				tw.Emit(map[string]any{"ev": "Ret", "sc": scn, "op": "FF", "proc": proc, "err": errStr(err)})
+				if err != nil {
+					res.Count("forceflush_returned_error", 1)
+				}
 				gate(proc + "@ret")
 			}
 		})
 	}
 	shutdown := func(name string, r *rand.Rand, maxUs int) {
-		ctx := context.WithValue(context.Background(), procKey{}, procInfo{name, scn})
 		if r != nil {
 			jitter(r, maxUs)
 		}
+		ctx, after := callCtx(name)
 		gate(name + "@call")
 		tw.Emit(map[string]any{"ev": "Call", "sc": scn, "op": "SD", "proc": name})
+		after()
 		err := bp.Shutdown(ctx)
 		tw.Emit(map[string]any{"ev": "Ret", "sc": scn, "op": "SD", "proc": name, "err": errStr(err)})
+		if err != nil {
+			res.Count("shutdown_returned_error", 1)
+		}
 		gate(name + "@ret")
 	}
 	for s := 1; s <= sc.Stoppers; s++ {
@@ -672,6 +773,31 @@ func randomScenario(r *rand.Rand) Scenario {
 		// bufferExporter.inputMu (blocked marker send) while another TryDequeue holds the queue lock waiting for
 		// it, which blocks Emit itself: with concurrent flushers the hold would wait for itself
 		sc.Phased = true
+	}
+	// caller contexts that end (own generator: the scenarios drawn above stay what they were for a seed)
+	cr := rand.New(rand.NewSource(sc.Seed ^ 0x5ca1ab1e))
+	if cr.Intn(100) < 40 {
+		modes := []string{"pre", "pre", "during", "deadline"}
+		add := func(proc string) {
+			if cr.Intn(2) == 0 {
+				sc.Cancels = append(sc.Cancels, CancelSpec{Proc: proc, Mode: modes[cr.Intn(len(modes))], DelayUs: cr.Intn(1500)})
+			}
+		}
+		for f := 1; f <= sc.Flushers; f++ {
+			for j := 1; j <= sc.FlushesPer; j++ {
+				if sc.FlushesPer > 1 {
+					add(fmt.Sprintf("f%d.%d", f, j))
+				} else {
+					add(fmt.Sprintf("f%d", f))
+				}
+			}
+		}
+		for s := 1; s <= sc.Stoppers; s++ {
+			add(fmt.Sprintf("s%d", s))
+		}
+		if sc.ExpMode != "hold" && cr.Intn(2) == 0 {
+			sc.ExpMode = "slow" // a busy export goroutine: flushes that give up leave batches parked in the export buffer
+		}
 	}
 	return sc
 }
